@@ -367,6 +367,11 @@ func shouldRespondDelta(con *Connection, request *discovery.DeltaDiscoveryReques
 		deltaLog.Warnf("ADS:%s: ACK ERROR %s %s:%s", stype, con.ID(), errCode.String(), request.ErrorDetail.GetMessage())
 		xds.IncrementXDSRejects(request.TypeUrl, con.proxy.ID, errCode.String())
 		con.proxy.UpdateWatchedResource(request.TypeUrl, func(wr *model.WatchedResource) *model.WatchedResource {
+			// There may be no watch for this type: a NACK can be the first request we see for it, or
+			// can arrive after the client has unsubscribed from it.
+			if wr == nil {
+				return nil
+			}
 			wr.LastError = request.ErrorDetail.GetMessage()
 			return wr
 		})
